@@ -5,6 +5,7 @@ package numpin
 import (
 	"context"
 	"fmt"
+	"sync"
 
 	"github.com/ipfs/ipfs-cluster/api"
 
@@ -19,7 +20,9 @@ var MetricName = "numpin"
 // Informer is a simple object to implement the ipfscluster.Informer
 // and Component interfaces
 type Informer struct {
-	config    *Config
+	config *Config
+
+	mu        sync.Mutex
 	rpcClient *rpc.Client
 }
 
@@ -38,7 +41,9 @@ func NewInformer(cfg *Config) (*Informer, error) {
 // SetClient provides us with an rpc.Client which allows
 // contacting other components in the cluster.
 func (npi *Informer) SetClient(c *rpc.Client) {
+	npi.mu.Lock()
 	npi.rpcClient = c
+	npi.mu.Unlock()
 }
 
 // Shutdown is called on cluster shutdown. We just invalidate
@@ -47,7 +52,9 @@ func (npi *Informer) Shutdown(ctx context.Context) error {
 	_, span := trace.StartSpan(ctx, "informer/numpin/Shutdown")
 	defer span.End()
 
+	npi.mu.Lock()
 	npi.rpcClient = nil
+	npi.mu.Unlock()
 	return nil
 }
 
@@ -63,7 +70,11 @@ func (npi *Informer) GetMetric(ctx context.Context) *api.Metric {
 	ctx, span := trace.StartSpan(ctx, "informer/numpin/GetMetric")
 	defer span.End()
 
-	if npi.rpcClient == nil {
+	npi.mu.Lock()
+	rpcClient := npi.rpcClient
+	npi.mu.Unlock()
+
+	if rpcClient == nil {
 		return &api.Metric{
 			Valid: false,
 		}
@@ -73,7 +84,7 @@ func (npi *Informer) GetMetric(ctx context.Context) *api.Metric {
 
 	// make use of the RPC API to obtain information
 	// about the number of pins in IPFS. See RPCAPI docs.
-	err := npi.rpcClient.CallContext(
+	err := rpcClient.CallContext(
 		ctx,
 		"",              // Local call
 		"IPFSConnector", // Service name
